@@ -51,6 +51,13 @@ class C04(Prop):
             h["lists"] = [l or [] for l in (h.get("lists") or [])]
             for k in ("fetch_scripts", "invocations", "uploads", "fetch_attempts"):
                 h[k] = h.get(k) or {}
+        # the proxy binary with a poll that has been waiting for 16.5 s when the request arrives (beside the other runs: it takes that long)
+        import threading
+        from props.c02 import build_server
+        idle = {}
+        srv_bin = build_server(ctx)
+        th = threading.Thread(target=lambda: idle.update(r=servsched.idle_poll_run(srv_bin)))
+        th.start()
         sv = servsched.run(ctx, race=False)
         # the real agent process told to shut down gracefully while a pending-list call is in flight: the IDs that call returns
         # were handed to this agent by the proxy and to nobody else (the lifecycle driver of C20, these scenarios only)
@@ -66,7 +73,8 @@ class C04(Prop):
         late = C.read_jsonl(outp)
         if rc != 0 or not late:
             raise RuntimeError("lifecycle harness (late-listed scenarios) did not run: rc=%s %s" % (rc, out[-1500:]))
-        return {"histories": rows, "server": sv, "late": late}
+        th.join()
+        return {"histories": rows, "server": sv, "late": late, "idle_poll": idle.get("r") or {"error": "did not run"}}
 
     def oracle(self, ctx, obs):
         res = []
@@ -88,6 +96,11 @@ class C04(Prop):
                     res.append(("agent:not-forwarded", "request %s was served without error by the proxy but never forwarded" % i, rp))
                 if h["fetch_attempts"].get(i, 0) > 3 and inside:
                     res.append(("agent:too-many-fetch-attempts", "request %s was fetched %d times" % (i, h["fetch_attempts"][i]), rp))
+        ip = obs.get("idle_poll") or {}
+        if ip.get("error") or ip.get("ids_listed") != 1 or ip.get("client_status") != 200:
+            res.append(("id-not-handed-to-a-long-waiting-poll", "a client request that arrived when the agent's pending-list poll had been waiting for %s s: %s ID(s) listed after %s s over %s poll(s) (statuses %s, errors %s); the client got %s" % (
+                ip.get("idle_s"), ip.get("ids_listed"), ip.get("listed_after_s"), ip.get("polls"), ip.get("poll_statuses"), ip.get("poll_errors"), ip.get("client_status", ip.get("client_err", ip.get("error")))),
+                {"driver": "lib/servsched.idle_poll_run: the proxy binary (its own main), one poller, one client", "observed": ip}))
         for r in obs.get("late") or []:
             sc = r["scenario"]
             if r.get("late_fetched_ms", -1) < 0 or r.get("late_backend_calls") != 1 or not r.get("late_upload_ok"):
